@@ -3,7 +3,8 @@
    Model/ArgGen.v is regenerated on every run from the Python abstract syntax
    of ten methods of class TexArgs in TexSoup/data.py (harness/gen_args.py,
    fail-closed): __init__, __coerce, append, extend, insert, remove, pop,
-   reverse, clear, __getitem__.  NOT translated: __contains__, __str__,
+   reverse, clear, __getitem__, and the classmethod TexGroup.parse that
+   __coerce calls (C18gen_parse).  NOT translated: __contains__, __str__,
    __repr__ (outside the language of Model/ArgDSL.v); for them the hand-written
    m_contains / m_str stay tied to the code by the correspondence only.
    `run_meth gen_a_cls M args st` interprets the translated body of M on the
@@ -28,6 +29,13 @@ Print Assumptions C18gen_init.
 Theorem C18gen_init_default : run_meth gen_a_cls M_init [] empty_state = done (m_new []).
 Proof. exact run_init_default. Qed.
 Print Assumptions C18gen_init_default.
+
+(* TexGroup.parse(s) on a str, as translated: Args.parse_group
+   (parse_rv s := the group as a value, or TypeError) *)
+Theorem C18gen_parse : forall st s,
+  run_meth gen_a_cls M_parse [VStr s] st = ODone st (parse_rv s).
+Proof. exact run_parse. Qed.
+Print Assumptions C18gen_parse.
 
 (* coerce_rv a := the coerced item of Args.coerce as a value, or TypeError *)
 Theorem C18gen_coerce : forall st a,
